@@ -9,6 +9,7 @@ import (
 	"strings"
 	"sync"
 	"time"
+	_ "time/tzdata" // named zones must not depend on the host
 	"verif/internal/enum"
 
 	"golang.org/x/mod/module"
@@ -25,6 +26,8 @@ type caseT struct {
 	Rev   string `json:"rev"`
 	Time2 string `json:"time2,omitempty"`
 	Rev2  string `json:"rev2,omitempty"`
+	// Zone: the time is carried in this named zone of the time zone database (daylight saving rules)
+	Zone string `json:"zone_name,omitempty"`
 }
 
 func refCmp(a, b string) int { return semverref.Compare(semverref.Parse(a), semverref.Parse(b)) }
@@ -436,6 +439,7 @@ func Run(r *fw.Run) {
 		}
 		r.Sample(map[string]any{"base": s[0], "rev": s[1], "time": ts[13].Format(time.RFC3339Nano), "pseudo": module.PseudoVersion("", s[0], ts[13], s[1])})
 	}
+	dstPart(r)
 	// negative space: strings that must not be taken for pseudo-versions / must fail to parse
 	for _, v := range []string{"v1.2.3", "v1.2.3-pre", "v1.2.3-0.20190101000000", "v0.0.0-2019010100000-abc", "v0.0.0-201901010000000-abc", "v0.0.0-20190101000000-", "v0.0.0-20190101000000-ab_c", "0.0.0-20190101000000-abc", "v0.1.0-20190101000000-abc"} {
 		r.States.Add(1)
@@ -454,6 +458,61 @@ func Run(r *fw.Run) {
 	_ = strings.Join
 }
 
+// dstPart: commit times carried in named zones with daylight saving rules (embedded time zone database), every
+// second within two hours of every change of offset in three years (repeated and skipped wall-clock hours,
+// half-hour shifts, a skipped day): the version is that of the instant, and consecutive seconds give
+// increasing versions.
+func dstPart(r *fw.Run) {
+	zones := []string{"America/New_York", "Europe/London", "Australia/Lord_Howe", "Pacific/Apia", "America/St_Johns", "Africa/Casablanca", "Asia/Tehran", "Europe/Dublin", "America/Sao_Paulo"}
+	years := []int{1996, 2011, 2021}
+	span := r.Pick(2*3600, 3*3600)
+	r.Bounds["named_zone_times"] = fmt.Sprintf("zones %v, years %v: every second within %d s of every change of offset, bases {none, v1.2.3}", zones, years, span)
+	fw.Parallel(len(zones), func(zi int) {
+		l := fw.NewLocal()
+		defer r.Merge(l)
+		loc, err := time.LoadLocation(zones[zi])
+		if err != nil {
+			r.Note("zone %s not available: %v", zones[zi], err)
+			return
+		}
+		for _, y := range years {
+			for t := time.Date(y, 1, 1, 0, 0, 0, 0, time.UTC); t.Year() == y; t = t.Add(time.Hour) {
+				_, o1 := t.In(loc).Zone()
+				_, o2 := t.Add(time.Hour).In(loc).Zone()
+				if o1 == o2 {
+					continue
+				}
+				for _, base := range []string{"", "v1.2.3"} {
+					prev := ""
+					for d := -span; d <= span+3600; d++ {
+						tt := t.Add(time.Duration(d)*time.Second + 500*time.Millisecond).In(loc)
+						l.States++
+						l.Execs++
+						l.Transitions++
+						l.Nontrivial++
+						c := caseT{Major: "v1", Base: base, Time: tt.Format(time.RFC3339Nano), Rev: "abcdef123456", Zone: zones[zi]}
+						if base == "" {
+							c.Major = ""
+						}
+						pv, msg := one(c.Major, base, tt, c.Rev)
+						if msg == "" && prev != "" && semver.Compare(prev, pv) >= 0 {
+							msg = fmt.Sprintf("one second later gives %q, not above %q", pv, prev)
+						}
+						if msg == "" && pv != module.PseudoVersion(c.Major, base, tt.UTC(), c.Rev) {
+							msg = fmt.Sprintf("the same instant gives %q in zone %s and %q in UTC", pv, zones[zi], module.PseudoVersion(c.Major, base, tt.UTC(), c.Rev))
+						}
+						if msg != "" {
+							r.Violation(fmt.Sprintf("zone:%s:%s:%s", zones[zi], base, c.Time), msg, c)
+							break
+						}
+						prev = pv
+					}
+				}
+			}
+		}
+	})
+}
+
 func Replay(r *fw.Run, raw json.RawMessage) {
 	oldLocal := time.Local
 	time.Local = time.FixedZone("VerifLocal", -(7*3600 + 1800)) // as in Run
@@ -464,6 +523,17 @@ func Replay(r *fw.Run, raw json.RawMessage) {
 	if err != nil {
 		r.Violation("replay", "bad time "+strconv.Quote(c.Time), c)
 		return
+	}
+	if c.Zone != "" {
+		loc, err := time.LoadLocation(c.Zone)
+		if err != nil {
+			r.Violation("replay", "zone "+c.Zone+": "+err.Error(), c)
+			return
+		}
+		t = t.In(loc)
+		if pz, pu := module.PseudoVersion(c.Major, c.Base, t, c.Rev), module.PseudoVersion(c.Major, c.Base, t.UTC(), c.Rev); pz != pu {
+			r.Violation("zone", fmt.Sprintf("the same instant gives %q in zone %s and %q in UTC", pz, c.Zone, pu), c)
+		}
 	}
 	r.States.Add(1)
 	r.Transitions.Add(1)
